@@ -303,6 +303,7 @@ def r3_per_instance(ctx):
     n = 0
     for rel in (SOLVER, TOKENS, OPERATORS, EXPR):
         mod = ctx.repo.module(rel)
+        written = _written_class_attrs(mod)
         for cname, c in mod.classes.items():
             for st in c.body:
                 val = tgt = None
@@ -315,9 +316,30 @@ def r3_per_instance(ctx):
                 n += 1
                 mutable = isinstance(val, (ast.List, ast.Dict, ast.Set, ast.ListComp, ast.DictComp)) or \
                     (isinstance(val, ast.Call) and dotted_name(val.func) in ("list", "dict", "set", "deque", "collections.deque"))
-                ctx.check(not mutable, rel, cname, f"class attribute {tgt} is not a shared mutable container",
+                ctx.check(not (mutable and tgt in written), rel, cname, f"class attribute {tgt} is not a shared container that methods write to",
                           detail=norm(val))
     ctx.floor("class-level attributes scanned", n, 30)
+
+
+
+def _written_class_attrs(mod):
+    """Names X such that some function stores into / mutates `<anything>.X[...]`, `<anything>.X.<mutator>()` or rebinds Cls.X."""
+    MUT = {"append", "extend", "insert", "pop", "remove", "clear", "update", "setdefault", "popitem", "add", "discard", "sort"}
+    out = set()
+    for n in ast.walk(mod.tree):
+        tg = []
+        if isinstance(n, ast.Assign):
+            tg = n.targets
+        elif isinstance(n, (ast.AugAssign,)):
+            tg = [n.target]
+        elif isinstance(n, ast.Delete):
+            tg = n.targets
+        for t in tg:
+            if isinstance(t, ast.Subscript) and isinstance(t.value, ast.Attribute):
+                out.add(t.value.attr)
+        if isinstance(n, ast.Call) and isinstance(n.func, ast.Attribute) and n.func.attr in MUT and isinstance(n.func.value, ast.Attribute):
+            out.add(n.func.value.attr)
+    return out
 
 
 RULES = [
